@@ -135,8 +135,16 @@ def _run_case(ctx, case, op):
             # the same object may be listed more than once (case["alias"] = [[i, j], ...])
             src = next((j for i, j in case.get("alias", []) if i == k), None)
             vitems.append(vitems[src] if src is not None and src < k and items[src] == it else operand(it))
+        arg = vitems
+        how = case.get("iterable", "list")
+        if how == "tuple":
+            arg = tuple(vitems)
+        elif how == "iter":
+            arg = iter(vitems)
+        elif how == "generator":
+            arg = (x for x in vitems)
         try:
-            r = vsep.join(vitems)
+            r = vsep.join(arg)
         except Exception as e:  # noqa
             ctx.judge(False, case, mech="C06:join", expected=obs.show(want), got=repr(e))
             return
@@ -206,7 +214,8 @@ def run(ctx):
         for _ in range(rng.randint(0, 3)):
             items.append(rng.choice(strs) if rng.random() < .4
                          else obs.rand_spec(rng, 3, 2, "abc", palette=pal))
-        case = {"op": "join", "sep": sep, "items": items}
+        case = {"op": "join", "sep": sep, "items": items,
+                "iterable": rng.choice(["list", "list", "tuple", "iter", "generator"])}
         if len(items) >= 2 and rng.random() < .3:
             j = rng.randrange(len(items) - 1)
             items[-1] = items[j]
